@@ -8,7 +8,7 @@ trap 'git -C /repo worktree remove --force $W >/dev/null 2>&1; rm -rf $W' EXIT
 if ! git -C $W apply "$P" 2>/dev/null; then echo "PATCH DOES NOT APPLY: $P"; exit 3; fi
 git -C $W diff --stat | tail -1
 for prop in "$@"; do
-  out=$(cd /verif && VERIF_OUT=/tmp/expout VERIF_REPO=$W VERIF_MINIMISE=${VERIF_MINIMISE:-3s} ./check $prop quick 2>&1); rc=$?
+  out=$(cd ${VERIF_DIR:-/verif} && VERIF_OUT=/tmp/expout VERIF_REPO=$W VERIF_MINIMISE=${VERIF_MINIMISE:-3s} ./check $prop quick 2>&1); rc=$?
   echo "--- $prop rc=$rc"
   echo "$out" | grep -A2 "^VIOLATION\|CHECK-ERROR\|NONDET\|WORKER-FAIL\|HARNESS" | cut -c1-330 | head -${LINES_MAX:-14}
   echo "$out" | grep "^check \|^race-mode" | cut -c1-200
